@@ -6,7 +6,6 @@ import (
 	"regexp"
 	"sort"
 	"strings"
-	"sync"
 	"time"
 
 	"verif/core"
@@ -18,31 +17,32 @@ import (
 // TLC. The counterexamples are hypotheses about the real generator: each is
 // replayed on the real code (Go renderer, soyjs + node) and judged there.
 
-var reCex = regexp.MustCompile(`^<<"(CEX|PRED)", (?:"([a-z-]+)", )?(".*")>>$`)
+var reCex = regexp.MustCompile(`^<<"(CEX|PRED)", "([a-z_]+)", "([a-z-]+)", (".*")>>$`)
 
 type modelCase struct {
-	Kind string // unassigned | other-binding | "" (prediction)
+	Dev  string // deviation that produced the counterexample ("pinned" for predictions)
+	Kind string // unassigned | other-binding | "-" (prediction)
 	Body []core.Cmd
 	C    bool
 	Ref  string
 	JS   string
 }
 
-func scopeCfg(dev []string, size, inv string) string {
-	q := make([]string, len(dev))
-	for i, d := range dev {
-		q[i] = `"` + d + `"`
-	}
-	return "CONSTANTS\n Dev = {}\n JsDev = {" + strings.Join(q, ", ") + "}\n Size = \"" + size + "\"\nINIT SInit\nNEXT Next\nINVARIANT " + inv + "\nCHECK_DEADLOCK FALSE\n"
+func scopeCfg(size string) string {
+	return "CONSTANTS\n Dev = {}\n JsDev = {}\n Size = \"" + size + "\"\nINIT SInit\nNEXT Next\nINVARIANT RefinesRef\nINVARIANT CollectAll\nCHECK_DEADLOCK FALSE\n"
 }
 
-func (h *Harness) runScopeModel(dev []string, size, inv, label string) ([]modelCase, *core.TLCResult, error) {
-	res, err := h.ctx.RunTLC(core.TLCOpts{Module: "SoyJsScope", Cfg: scopeCfg(dev, size, inv), Workers: 3, Timeout: 10 * time.Minute, Label: label})
+// runScopeModel model-checks SoyJsScope: the reference design must refine
+// SoyExec on the whole family (invariant RefinesRef); CollectAll prints the
+// counterexamples of every named deviation and the predictions of the model
+// "as the code is".
+func (h *Harness) runScopeModel(size string) (cex map[string][]modelCase, pred []modelCase, res *core.TLCResult, err error) {
+	res, err = h.ctx.RunTLC(core.TLCOpts{Module: "SoyJsScope", Cfg: scopeCfg(size), Workers: 8, Timeout: 10 * time.Minute, Label: "SoyJsScope: reference design refines SoyExec; deviations; predictions"})
 	if err != nil {
-		return nil, res, err
+		return nil, nil, res, err
 	}
 	if res.Violated != "" {
-		return nil, res, fmt.Errorf("SoyJsScope %s: unexpected violation of %s", label, res.Violated)
+		return nil, nil, res, fmt.Errorf("SoyJsScope: the reference design does not refine SoyExec (%s violated) - specification bug:\n%.1500s", res.Violated, res.Trace)
 	}
 	var lines []string
 	for _, t := range res.Tuples {
@@ -51,11 +51,11 @@ func (h *Harness) runScopeModel(dev []string, size, inv, label string) ([]modelC
 		}
 	}
 	sort.Strings(lines)
-	var out []modelCase
+	cex = map[string][]modelCase{}
 	for _, t := range lines {
 		m := reCex.FindStringSubmatch(t)
 		if m == nil {
-			return nil, res, fmt.Errorf("SoyJsScope %s: cannot parse %.200s", label, t)
+			return nil, nil, res, fmt.Errorf("SoyJsScope: cannot parse %.200s", t)
 		}
 		var v struct {
 			Body []core.Cmd
@@ -63,12 +63,17 @@ func (h *Harness) runScopeModel(dev []string, size, inv, label string) ([]modelC
 			Ref  string
 			JS   string `json:"js"`
 		}
-		if err := json.Unmarshal([]byte(core.TLAUnquote(m[3])), &v); err != nil {
-			return nil, res, fmt.Errorf("SoyJsScope %s: bad JSON: %v", label, err)
+		if err := json.Unmarshal([]byte(core.TLAUnquote(m[4])), &v); err != nil {
+			return nil, nil, res, fmt.Errorf("SoyJsScope: bad JSON: %v", err)
 		}
-		out = append(out, modelCase{Kind: m[2], Body: v.Body, C: v.C, Ref: v.Ref, JS: v.JS})
+		mc := modelCase{Dev: m[2], Kind: m[3], Body: v.Body, C: v.C, Ref: v.Ref, JS: v.JS}
+		if m[1] == "PRED" {
+			pred = append(pred, mc)
+		} else {
+			cex[mc.Dev] = append(cex[mc.Dev], mc)
+		}
 	}
-	return out, res, nil
+	return cex, pred, res, nil
 }
 
 // modelProgram turns a program of the model family into a real bundle.
@@ -99,47 +104,24 @@ func featureOfDeviation(dev, kind string) string {
 }
 
 // ScopeModel is M1 + replay of the SoyJsScope model.
-func (h *Harness) ScopeModel() {
+func (h *Harness) ScopeModel() []*report {
 	ctx := h.ctx
 	size := "small"
 	if ctx.Thorough() {
 		size = "large"
 	}
 	devs := []string{"block_no_scope", "let_name_first", "helper_innermost", "loop_no_pop"}
-	pinned := []string{"block_no_scope", "let_name_first", "helper_innermost"}
-	type result struct {
-		cases []modelCase
-		res   *core.TLCResult
-		err   error
+	cex, pred, res, err := h.runScopeModel(size)
+	if err != nil {
+		ctx.ToolError("%v", err)
+		return nil
 	}
-	results := make([]result, len(devs)+2)
-	var wg sync.WaitGroup
-	run := func(i int, dev []string, inv, label string) {
-		defer wg.Done()
-		c, r, e := h.runScopeModel(dev, size, inv, label)
-		results[i] = result{c, r, e}
-	}
-	wg.Add(len(devs) + 2)
-	go run(0, nil, "Collect", "SoyJsScope reference design")
-	for i, d := range devs {
-		go run(i+1, []string{d}, "Collect", "SoyJsScope deviation "+d)
-	}
-	go run(len(devs)+1, pinned, "Predict", "SoyJsScope as the code is (predictions)")
-	wg.Wait()
-	for _, r := range results {
-		if r.err != nil {
-			ctx.ToolError("%v", r.err)
-			return
-		}
-	}
-	if n := len(results[0].cases); n > 0 {
-		ctx.ToolError("SoyJsScope: the reference design does not refine SoyExec (%d counterexamples) - specification bug", n)
-		return
-	}
-	selftest := map[string]interface{}{"reference_design_counterexamples": 0, "programs": results[0].res.Distinct}
-	limit := ctx.Pick(60, 400)
-	for i, d := range devs {
-		cs := results[i+1].cases
+	selftest := map[string]interface{}{"reference_design_refines": true, "states": res.Distinct, "programs": len(pred)}
+	limit := ctx.Pick(150, 1000)
+	var all []*Case
+	per := map[string][]*Case{}
+	for _, d := range devs {
+		cs := cex[d]
 		selftest["deviation_"+d+"_counterexamples"] = len(cs)
 		if len(cs) == 0 {
 			ctx.ToolError("SoyJsScope: deviation %s produced no counterexample (vacuous invariant)", d)
@@ -147,22 +129,34 @@ func (h *Harness) ScopeModel() {
 		}
 		// replay: shortest programs first, deterministic
 		sort.SliceStable(cs, func(a, b int) bool { return len(fmt.Sprint(cs[a].Body)) < len(fmt.Sprint(cs[b].Body)) })
-		var cases []*Case
-		for _, mc := range cs {
-			if len(cases) >= limit {
+		for i, mc := range cs {
+			if i >= limit {
 				break
 			}
-			cases = append(cases, &Case{Family: "scope", Feature: featureOfDeviation(d, mc.Kind), Note: "counterexample of SoyJsScope deviation " + d + "; model predicts JS output " + fmt.Sprintf("%q", mc.JS),
-				Prog: modelProgram(mc), SkipOK: true, Predicted: mc.JS, HasPrediction: true})
+			c := &Case{Family: "scope", Feature: featureOfDeviation(d, mc.Kind), Note: "counterexample of SoyJsScope deviation " + d + "; the model predicts the JS output " + fmt.Sprintf("%q", mc.JS),
+				Prog: modelProgram(mc), SkipOK: true, Predicted: mc.JS, HasPrediction: true}
+			per[d] = append(per[d], c)
+			all = append(all, c)
 		}
-		reproduced, compiled := h.judgeModelCases(cases, "scope-model "+d)
+	}
+	reps := h.Judge(all, "scope-model counterexamples")
+	for _, d := range devs {
+		reproduced, compiled := 0, 0
+		for _, c := range per[d] {
+			if c.Skip != "" {
+				continue
+			}
+			compiled++
+			if c.Verdict == "JS" || c.Verdict == "ALL" || c.Verdict == "GO" {
+				reproduced++
+			}
+		}
 		selftest["deviation_"+d+"_replayed"] = compiled
 		selftest["deviation_"+d+"_reproduced_on_real_code"] = reproduced
 	}
 	// the model as the code is: its predicted JS output against the real one
-	pred := results[len(devs)+1].cases
 	step := 1
-	if n := ctx.Pick(400, 100000); len(pred) > n {
+	if n := ctx.Pick(1200, 100000); len(pred) > n {
 		step = len(pred)/n + 1
 	}
 	var cases []*Case
@@ -194,21 +188,8 @@ func (h *Harness) ScopeModel() {
 		// violation (DESIGN 2.2); it is reported so that the model gets updated
 		selftest["model_drift_examples"] = drift
 	}
+	h.mu.Lock()
 	ctx.Extra["scope_model"] = selftest
-}
-
-// judgeModelCases executes and judges replayed counterexamples; returns how
-// many showed a Go/JS disagreement on the real code and how many compiled.
-func (h *Harness) judgeModelCases(cases []*Case, label string) (reproduced, compiled int) {
-	h.Judge(cases, label)
-	for _, c := range cases {
-		if c.Skip != "" {
-			continue
-		}
-		compiled++
-		if c.Verdict == "JS" || c.Verdict == "ALL" || c.Verdict == "GO" {
-			reproduced++
-		}
-	}
-	return
+	h.mu.Unlock()
+	return reps
 }
